@@ -2446,6 +2446,7 @@ void DGXMLScanner::scanReset(const InputSource& src)
     fStandalone = false;
     fErrorCount = 0;
     fHasNoDTD = true;
+    fXMLVersion = XMLReader::XMLV1_0;
 
     // Reset the validators
     fDTDValidator->reset();
